@@ -1,3 +1,17 @@
 // Package main (fixture placeholder).
 package main
 func main() {}
+
+// rateUnchecked divides by a count that can be zero (DIVZERO positive).
+func rateUnchecked(hits, misses int) int {
+	return 100 * hits / (hits + misses)
+}
+
+// rateChecked divides only where the count is known non-zero (DIVZERO negative).
+func rateChecked(hits, misses int) int {
+	total := hits + misses
+	if total != 0 {
+		return 100 * hits / total
+	}
+	return 0
+}
